@@ -124,6 +124,12 @@ class Models:
                 return len(self.st.rec(v)["items"]) != 0
             if v.kind == "dict":
                 return len(self.st.rec(v)["items"]) != 0
+            if v.kind == "obj" and getattr(v.cls, "truth_unknown", False):
+                # an object supplied by the caller: bool(obj) is whatever its class says (__bool__ / __len__)
+                memo = self.st.ghost.setdefault("obj_truth", {})
+                if v.id not in memo:
+                    memo[v.id] = SBool(z3.Bool(fresh_name("truthy_obj")))
+                return memo[v.id]
             return True
         if isinstance(v, KwMap):
             return self.kw_len(v) != 0
@@ -813,6 +819,14 @@ class Models:
             raise Unsupported(f"subscript of {obj}")
         if isinstance(obj, KwMap):
             return self.kw_get(obj, idx, KeyError)
+        if isinstance(obj, DictView):
+            # obj.__dict__[name]: the instance's own fields only (no class attributes, no properties)
+            if not isinstance(idx, str):
+                raise Unsupported("subscript of __dict__ with a non-literal key")
+            fields = self.st.rec(obj.ref)["fields"]
+            if idx in fields:
+                return fields[idx]
+            self.raise_(KeyError, idx)
         if isinstance(obj, dict):
             return self.dict_lookup(obj, idx)
         if is_byteslike(obj):
@@ -1247,6 +1261,10 @@ class Models:
             return f.cls.model_call(self.ex, f, args, kwargs)
         if isinstance(f, types.FunctionType):
             return self.call_pyfunc(f, args, kwargs)
+        if type(f).__name__ == "_lru_cache_wrapper" and isinstance(getattr(f, "__wrapped__", None), types.FunctionType):
+            # functools.lru_cache / cache: analysed as the wrapped function; the sharing of results that the cache
+            # introduces is the frame scan's business (memoising decorators are reported there)
+            return self.call_pyfunc(f.__wrapped__, args, kwargs)
         if isinstance(f, type):
             return self.call_class(f, args, kwargs)
         if ("__kwmap__" in kwargs):
@@ -1539,7 +1557,52 @@ class Models:
             raise Unsupported("bytes.replace")
         if name in ("rstrip", "lstrip", "strip"):
             return self.bytes_strip(rope, name, args)
+        if name in ("find", "index") and args and len(args) <= 3:
+            return self.bytes_find(rope, name, args)
         raise Unsupported(f"bytes.{name}")
+
+    def bytes_find(self, rope, name, args):
+        """b.find(needle[, start[, end]]) for a concrete, non-empty needle: the lowest index of an occurrence within the
+        window, or -1 (index: ValueError).  The result r is characterised: occurrence at r, none before it (forall-fact,
+        instantiated at every index the VC reads), and no occurrence at all when r == -1."""
+        from .values import to_rope
+        needle = args[0]
+        if isinstance(needle, SBytes):
+            if not needle.is_concrete():
+                raise Unsupported("bytes.find with a symbolic needle")
+            needle = needle.concrete()
+        if isinstance(needle, int) and not isinstance(needle, bool):
+            needle = bytes([needle])
+        if not isinstance(needle, (bytes, bytearray)):
+            self.raise_(TypeError, "argument should be integer or bytes-like object")
+        needle = bytes(needle)
+        rope = to_rope(rope)
+        if rope.is_concrete() and all(not is_symv(a) for a in args[1:]):
+            try:
+                return getattr(rope.concrete(), name)(needle, *args[1:])
+            except ValueError as e:
+                self.raise_(ValueError, str(e))
+        if not needle:
+            raise Unsupported("bytes.find with an empty needle")
+        if len(args) > 1 and not (len(args) == 2 and isinstance(args[1], int) and args[1] == 0):
+            raise Unsupported("bytes.find with a start / end window")
+        n = zint(rope.length())
+        m = len(needle)
+        st = self.st
+
+        def occ(j):
+            return z3.And(*[rope.at(j + k) == needle[k] for k in range(m)])
+
+        r = z3.Int(fresh_name("find"))
+        st.assume(mk_bool(z3.And(r >= -1, r <= n - m)))
+        st.assume(mk_bool(z3.Implies(r >= 0, occ(r))))
+        st.add_forall(lambda j, r=r, n=n: z3.Implies(z3.And(j >= 0, j + m <= n, z3.Or(r == -1, j < r)), z3.Not(occ(j))))
+        st.add_trigger(z3.IntVal(0))
+        st.add_trigger(r - 1)
+        if name == "index":
+            if st.branch(mk_bool(r == -1)):
+                self.raise_(ValueError, "subsection not found")
+        return mk_int(r)
 
     def bytes_strip(self, rope, name, args):
         """b.rstrip(chars) / lstrip / strip with a concrete set of byte values: the result is the slice b[lo:hi] with
